@@ -3,85 +3,93 @@ claim('C12',
       'Decides structural clauses, not pattern semantics over values: exhaustive arm-by-arm agreement of type_of '
       'and is_type (v is type(v), v is anything, registered types accepted), is_type on every path of every '
       'variable-writing closure, switch/try arm-loop shape, and dominance of the splat length subtraction by its '
-      'comparison. A finite decision table extracted from rustc HIR plus CFG path queries over MIR.',
+      'comparison, the splat-adjusted threshold of defaults, the inverse-operation table of operator patterns, and per-element '
+      'evaluation of for-clause patterns in the iteration scope. A finite decision table extracted from rustc HIR plus CFG path queries over MIR.',
       'finite pattern tables from HIR + MIR must-pass-through (dominance) queries')
 claim('C07',
       'Decides the dispatch structure of the numeric tower, not numeric values: the exhaustive 4x4 result-level table of '
       'every binary_match!-generated operator impl and of div_floor/mod_floor (288 rows), that each level applies the impl\'s '
       'own operation, that // and %% come from one rounding family per level (flooring helpers), the operand-side, '
-      'length-guard and error arms of the vectorisation wrappers, and the zero-divisor guard of exact division.',
+      'length-guard and error arms of the vectorisation wrappers, and the zero-divisor guard of exact division; no unreduced Ratio::new_raw anywhere.',
       'finite decision tables from HIR patterns + MIR callee/provenance facts')
 claim('C06',
       'Decides representation independence of the integer dispatch layer, not arithmetic exactness: sign/signum tables by '
       'abstract interpretation over {neg,zero,pos}; same operation in both arms of every Small/Big match; checked_<op> fast '
       'paths paired with the same trait on BigInt; crate-wide discipline on what may flow into an NInt::Small (no casts, no '
       'unchecked/wrapping/checked_shl results); nobody outside nint.rs reads the representation; Eq/Ord/Hash ignore it; zero '
-      'divisors are tested before exact division; div_floor/mod_floor/gcd/lcm/sqrt/pow/shifts go through BigInt.',
+      'divisors are tested before exact division; div_floor/mod_floor/gcd/lcm/sqrt/pow/shifts go through BigInt; a reviewed census of truncating-remainder uses outside the '
+      'operator layers (the library\'s modulo is mod_floor).',
       'value-origin dataflow over MIR + sibling-arm agreement + abstract interpretation on the sign domain')
 claim('C08',
       'Decides structural clauses, not the order laws themselves: no lossy conversion or int/float cast reachable from any '
       'comparison entry point (call-graph closure), f64->BigInt only on floor(f) or under an integrality test, exhaustive '
       'decision tables of the eight comparison operators, max/min bias and cmp_nint_f64, mirrored (Float,Int)/(Int,Float) arms, '
-      'incomparable => error, stable sort, infinities separated before partial exact conversions.',
+      'incomparable => error, stable sort, infinities separated before partial exact conversions, and no pointer-identity shortcut (Rc::ptr_eq) anywhere in '
+      'the comparison closure (with a positive control).',
       'forbidden-callee reachability over the resolved call graph + finite decision tables from MIR')
 claim('C09',
       'Decides the Eq/Hash coherence discipline of dictionary keys structurally, not operation histories: canonical hashing '
       'sinks per numeric level (integral values through the integer hash, non-integral rationals and floats through one shared '
       'exact-fraction hash, imaginary part only when non-zero), NaN as one constant, matching element functions and kinds in key '
-      'equality and key hashing, an order-independent per-entry combiner for nested dicts, and key construction confined to the '
-      'validating to_key.',
+      'equality and key hashing, an order-independent per-entry combiner for nested dicts, key construction confined to the '
+      'validating to_key, left-operand filtering of the dict operators, and no narrowing cast or bit-count shortcut in any key hash.',
       'sink/callee discipline over MIR arms + CFG cycle and dominance queries')
 claim('C11',
       'Decides structural clauses, not closed forms over values: for every impl Stream the len/force overrides agree with whether '
       'next can end; observation methods take &self and iterate a clone_box() copy while Rc<dyn Stream> holders advance only through '
       'Rc::get_mut; every peek()-guarded loop makes progress; Range::len is sign-symmetric as a symbolic linear form with clamped '
-      'numerators and Range::empty compares in the direction of the step; infinite streams declare it and len maps that to inf.',
+      'numerators and Range::empty compares in the direction of the step; infinite streams declare it and len maps that to inf; overriding len/peek/index methods read the cursor field '
+      'next() advances on every result-producing path; Iterate yields the current element before stepping.',
       'per-impl decision table from MIR return origins + CFG progress queries + symbolic linear forms')
 claim('C10',
       'Decides structural clauses, not the clamp arithmetic: every positional payload access in the read/write/remove/slice functions '
       'takes its position from one of the shared normalisers (value-origin dataflow), accessor builtins are the documented index/slice '
       'expressions, all six sequence kinds are handled explicitly with byte-indexed strings, machine arithmetic on user indices is '
-      'sign-guarded or reviewed, prefix iteration of streams requires non-negative bounds, bad indices raise.',
+      'sign-guarded or reviewed, prefix iteration of streams requires non-negative bounds, bad indices raise, isize->usize casts in the normalisers are '
+      'sign-guarded, stream index overrides consult the cursor, absent slice-section bounds consume no argument.',
       'value-origin dataflow over MIR + accessor decision table + assert census with sign-guard dominance')
 claim('C03',
       'Decides the ingredients of operator-precedence grouping, not the grouping theorem: the exhaustive tie-break table of '
       'tighter_than_when_before enumerated from MIR discriminant paths with operand roles, the shunting shape of give/finish '
       '(pop/try_chain/run only on the reduce path, merge keeps the popped precedence, final push of the incoming operator, operand '
       'order), driver and sibling agreement, left-to-right single evaluation in the chain loop, and the complete who-chains-with-whom '
-      'table of all try_chain overrides.',
+      'table of all try_chain overrides, each returning its own operator type; assigning a precedence keeps the associativity.',
       'discriminant-path enumeration of MIR + guard-polarity/dominance queries + literal tables from HIR patterns')
 claim('C04',
       'Decides agreement of the dispatch paths, not extensional equality per builtin: run vs run1/run2 of every impl Builtin '
       '(delegation or equal effect signature), the argument side of every partial-application wrapper in Func::run/run1/run2, '
       'constructor helpers, call-or-partially-apply, the operand order of then/./.>/<./apply/of, the read-old -> rhs -> drop -> '
-      'run2(old, rhs) -> assign order of op-assign, and right sections for one-argument builtin calls.',
+      'run2(old, rhs) -> assign order of op-assign, right sections for one-argument builtin calls, the 8-row splat/section decision table and in-order slot filling of sections.',
       'sibling-implementation cross-check + operand provenance over MIR')
 claim('C05',
       'Decides the structural rules of the documented semantics, not equivalence with a reference interpreter: the exhaustive scope '
       'table over all arms of evaluate and the clauses of evaluate_for, per-iteration/per-arm/per-call freshness of scopes (CFG '
       'cycles, static parent), environment capture by lambdas, the exit algebra of every loop/fold/call/try site (Break/Continue '
       'counts decremented by one, Return absorbed only by calls, Throw only by try), declaration vs assignment layering over the '
-      'Env parent chain, short-circuit polarity of and/or/coalesce and branch exclusivity of if.',
+      'Env parent chain, short-circuit polarity of and/or/coalesce, branch exclusivity of if, refusal of a redeclaration before any map write, and '
+      'the left-associative grammar layering of or/coalesce over and over chains.',
       'exhaustive arm tables from HIR + CFG cycle/dominance/guard-polarity queries over MIR')
 claim('C17',
       'Decides structural agreement of the freeze traversal with the evaluator, not semantic equivalence over programs: scope copies '
       'exactly where evaluation scopes (per switch arm, catch-only, lambda, loops), binder placement and declared_only flags, identity '
       'rewrite of all Expr and Lvalue arms, every LocExpr/Lvalue child field produced by the freeze family, error exits confined to '
-      'warn == false, fully guarded constant folds, and the FreezeEnv built by Expr::Freeze.',
+      'warn == false, fully guarded constant folds, the FreezeEnv built by Expr::Freeze, union of binders across or/and patterns, and shape-preserving freeze wrappers.',
       'sibling-traversal cross-check over HIR arms + field provenance over MIR')
 claim('C01',
       'Proof, relative to the soundness of safe Rust, of the aliasing clauses (a mutation is never visible through another holder of a '
       'payload; calling a function on a value leaves the variable unchanged): all side conditions under which Rc<payload> can only be '
       'mutated through make_mut/get_mut are discharged as obligations - no user unsafe (with positive control), interior mutability '
       'confined to reviewed environment/memo edges over the whole type graph reachable from Obj, uniquely owned variable cells, cell '
-      'writers confined to the evaluator, arguments by value - plus the read-before-write ordering of op-assign and swap; thorough adds '
+      'writers confined to the evaluator, arguments by value - plus the read-before-write ordering of op-assign and swap, no user code under a mutable cell borrow, and take/restore pairing of '
+      'moved-out string payloads; thorough adds '
       'compile-fail witnesses with compiling twins. Which slot a mutation addresses is not decided.',
       'type-graph reachability + who-may-call census + compile_fail witnesses (typestate enforced by rustc)', level='proof')
 claim('C02',
       'Decides the structural necessary conditions of in-place mutation, not the allocation bound: the target slot is nulled (and '
       'really released - no-op drops only for homogeneous payloads) before the operator runs on the value read, elements are taken out '
       'before the every-function runs, every function of the in-place path goes through Rc::make_mut and contains no whole-payload '
-      'copy or reallocation, consuming iterators drain unique handles, arguments travel by value.',
+      'copy or reallocation, consuming iterators drain unique handles, arguments travel by value, the drop before the operator is unconditional on '
+      'every path, and no write closure snapshots the cell it is about to write.',
       'dominance (must-pass-through) + forbidden-callee census over the in-place function table')
 claim('C14',
       'Decides an exact, reviewed inventory rather than panic-freedom for all inputs: every explicit panic site and every compiler-'
@@ -89,7 +97,8 @@ claim('C14',
       'I/O builtins excluded by table) is keyed without line numbers and either discharged by a sound class (unit-step counters, constant '
       'divisors, dominating comparison with the right polarity, exit-count decrements) or listed with a one-line verdict; unlisted sites '
       'and changed counts are violations. Also: NRes values are never silently discarded outside the reviewed idioms, control-flow error '
-      'variants are built only at reviewed sites, peek loops make progress. Termination in general, stack depth and dependency panics '
+      'variants are built only at reviewed sites, peek loops make progress, partial division-like operations are zero-guarded, and every '
+      'indexing operation (bounds checks, Index::index on Vec/slice/str/HashMap) is normaliser-derived or reviewed. Termination in general, stack depth and dependency panics '
       'are not decided.',
       'call-graph reachability census with reviewed triage tables + guard-polarity dominance')
 claim('C15',
@@ -97,18 +106,21 @@ claim('C15',
       'restricted to the lexer/parser closure (reviewed table, unlisted site => violation), Invalid tokens built only by the lexer and '
       'tokens read only through get(), progress of every lexer peek loop and (thorough) of every parser loop via a consuming-on-Ok least '
       'fixed point over the recursive-descent methods, and the literal tables (radix prefixes, NrDIGITS bounds, base-64 alphabet, escapes, '
-      'suffixes) extracted from HIR patterns.',
+      'suffixes) extracted from HIR patterns, no silent narrowing of literals (cast census), float literal tokens are one parse::<f64> of '
+      'their whole text.',
       'census over the front-end call closure + CFG progress analysis + literal tables from HIR patterns')
 claim('C16',
       'Decides table agreement between paired encoders/decoders and the wiring of exact conversions, not the round-trip equalities '
       '(dependencies): hex digit classes vs encoder alphabet and even-length guard, identical base range and digit functions in '
       'str_radix/int_radix with the sign emitted in front, FmtBase and format-flag tables with NInt forwarding the same formatting trait '
       'in both representations, mutual coverage of JSON kinds, no untriaged panic site in any codec body, and sign-before-split, checked '
-      'exponent arithmetic and no leading-digit dropping in the exact decimal parser.',
+      'exponent arithmetic and no leading-digit dropping in the exact decimal parser, the {:02x} template of hex_encode (decoded from the '
+      'format_args encoding) against the decoder\'s two-digit chunks, a crate-wide lossy-cast census, and arbitrary-precision text->number '
+      'parsing (machine-typed parse sites reviewed; JSON integers through as_i64).',
       'paired decision tables from HIR patterns/MIR constants + census + callee discipline')
 claim('C13',
       'The equations f(xs) == reference(xs) are NOT decided (runtime values). Decided are only the clauses of the statement that are '
       'finite tables or shapes: the exhaustive kind-preservation table of the filter/sort/unique/reverse/take/drop/uncons/unsnoc helpers '
       '(input kind -> constructed kind), stable sorting and first-occurrence uniqueness, the initial element of the combinatorial streams, '
-      'and progress of the predicate loops over streams.',
+      'progress of the predicate loops over streams, and non-short-circuiting row construction in ziplongest.',
       'finite kind tables from HIR match arms + guard-polarity query')
